@@ -292,6 +292,7 @@ def run_race(binp, kind, k, stale=False, timeout=150):
             obs['holder_compile_requests'] = json.loads(st.stdout.decode())['stats']['compile_requests']
         except Exception:
             obs['holder_compile_requests'] = None
+            obs['stats_err'] = st.stderr.decode('utf-8', 'replace')[-300:]
         if kind == 'uds':
             obs['socket_exists'] = os.path.exists(w.env['SCCACHE_SERVER_UDS'])
     finally:
@@ -421,7 +422,7 @@ def merge(kind, k, cseq, sseq):
                 cand.append((0, 'c', i, cseq[i][pos_c[i]]))
             if sseq[i] and pos_s[i] < len(sseq[i]) and s_enabled(i, sseq[i][pos_s[i]]):
                 l = sseq[i][pos_s[i]]
-                cand.append((1 if l in raising else 0, 's', i, l))
+                cand.append((2 if (l == 14 and kind == 'uds_nolock') else 1 if l in raising else 0, 's', i, l))
         if not cand:
             return trace, True
         cand.sort()
